@@ -48,21 +48,27 @@ KERNELS_OF = {
             "typed_insert_trace", "typed_pop_trace", "typed_remove_trace", "typed_swap_remove_trace", "typed_clear_trace",
             "copy_bytes_prog"],
     "C02": ["into_range", "drain_drop_cmds", "move_elements_at_cmds", "splice_drop_pre_cmds", "splice_drop_post_cmds"],
-    "C03": ["drop_elements_range_cmds", "temp_drop_cmds", "clear_cmds", "pop_new", "remove_new", "swap_remove_new", "drop_fn_cmds"],
+    "C03": ["drop_elements_range_cmds", "temp_drop_cmds", "clear_cmds", "pop_new", "remove_new", "swap_remove_new", "drop_fn_cmds",
+            "element_drop_cmds"],
     "C04": ["raw_type_check_trace", "anyvec_push_trace", "anyvec_insert_trace", "typed_push_trace", "typed_insert_trace",
             "value_downcast_ref_trace", "value_downcast_trace", "value_downcast_mut_trace", "element_downcast_ref_trace",
             "element_downcast_mut_trace", "anyvec_downcast_ref_trace", "anyvec_downcast_mut_trace", "value_swap_trace",
             "value_downcast_unchecked_trace"],
     "C08": ["clone_cmds", "clone_fn_cmds", "raw_clone_empty_in_fields", "raw_clone_empty_fields", "anyvec_clone_empty_fields",
-            "anyvec_clone_empty_in_fields", "anyvec_clone_fields"],
+            "anyvec_clone_empty_in_fields", "anyvec_clone_fields",
+            "anyvec_new_trace", "anyvec_new_in_trace", "anyvec_with_capacity_trace", "anyvec_with_capacity_in_trace", "anyvec_build_trace", "anyvec_element_typeid_trace", "anyvec_element_layout_trace", "anyvec_element_drop_trace", "anyvec_element_clone_trace", "raw_element_layout_trace"],
     "C09": ["lazy_move_into_trace", "lazy_clone_into_trace", "value_move_into_trace", "temp_move_into_trace"],
-    "C10": ["reserve", "reserve_exact", "shrink_to_fit", "shrink_to", "heap_expand", "expand_exact_default"],
+    "C10": ["reserve", "reserve_exact", "shrink_to_fit", "shrink_to", "heap_expand", "expand_exact_default",
+            "anyvec_reserve_trace", "anyvec_reserve_exact_trace", "anyvec_shrink_to_fit_trace", "anyvec_shrink_to_trace", "anyvec_set_len_trace", "anyvec_capacity_trace", "raw_capacity_trace", "raw_drop_trace", "typed_reserve_trace", "typed_reserve_exact_trace", "typed_shrink_to_fit_trace", "typed_shrink_to_trace", "typed_set_len_trace", "typed_capacity_trace", "mem_expand_default_trace", "mem_expand_exact_default_trace", "heap_build_with_size_trace"],
     "C11": ["stack_build", "stackn_build", "stackn_size", "reserve_one", "expand_one"],
     "C12": ["as_bytes_view", "as_bytes_mut_view", "spare_bytes_mut_view", "as_slice_view", "as_mut_slice_view",
-            "spare_capacity_mut_view", "stack_mem_align", "stackn_mem_align", "stack_max_align"],
+            "spare_capacity_mut_view", "stack_mem_align", "stackn_mem_align", "stack_max_align",
+            "element_ptr_at_off", "element_mut_ptr_at_off"],
     "C13": ["anyvec_get_trace", "anyvec_get_mut_trace", "anyvec_at_trace", "anyvec_at_mut_trace", "typed_get_trace",
-            "typed_get_mut_trace", "typed_at_trace", "typed_at_mut_trace", "anyvec_iter_trace", "anyvec_iter_mut_trace"],
-    "C14": ["iter_len", "iter_next", "iter_next_back", "iter_clone"],
+            "typed_get_mut_trace", "typed_at_trace", "typed_at_mut_trace", "anyvec_iter_trace", "anyvec_iter_mut_trace",
+            "value_swap_unchecked_trace", "anyvec_insert_unchecked_trace", "anyvec_push_unchecked_trace", "anyvec_get_unchecked_trace", "anyvec_get_unchecked_mut_trace", "typed_iter_mut_trace", "typed_get_unchecked_trace", "typed_get_unchecked_mut_trace", "opsiter_next_trace", "opsiter_next_back_trace", "opsiter_len_trace", "opsiter_size_hint_trace", "temp_bytes_len_trace", "temp_size_trace", "temp_as_bytes_ptr_trace", "temp_clone_into_trace", "element_size_trace", "element_value_typeid_trace", "element_clone_into_trace", "lib_copy_nonoverlapping_value_trace", "ptr_element_size_trace", "ptr_element_typeid_trace"],
+    "C14": ["iter_len", "iter_next", "iter_next_back", "iter_clone",
+            "iter_new_fields"],
     "C06": ["pop_new", "remove_new", "swap_remove_new", "drain_new", "splice_new", "insert_unchecked_cmds", "clear_cmds",
             "temp_drop_cmds", "splice_drop_pre_cmds", "splice_drop_post_cmds"],
     "C07": ["pop_new", "remove_new", "swap_remove_new", "drain_new", "splice_new", "temp_drop_cmds", "drain_drop_cmds"],
@@ -139,7 +145,12 @@ def lean_audit(prop):
 
 # ------------------------------------------------------------------------------------------ execution
 def run_stream(binary, text, timeout=1200):
-    p = subprocess.run([binary], input=text, stdout=subprocess.PIPE, stderr=subprocess.PIPE, text=True, timeout=timeout)
+    try:
+        p = subprocess.run([binary], input=text, stdout=subprocess.PIPE, stderr=subprocess.PIPE, text=True, timeout=timeout)
+    except subprocess.TimeoutExpired as ex:
+        # a hang is reported like a death of the process in the case it was working on
+        so = ex.stdout if isinstance(ex.stdout, str) else (ex.stdout or b"").decode("utf-8", "replace")
+        return -99, so, "timeout after %ds" % timeout
     return p.returncode, p.stdout, p.stderr
 
 def split_cases(stdout):
@@ -248,8 +259,15 @@ def check_case(case, impl, model, crash, proj_opts, kinds):
         fs = [f for f in fs if f.klass == "B" or f.kind in kinds or f.kind in ("crash", "oracle-error")]
     return fs, stats
 
-def run_cases(harness, cases, proj_opts, kinds, chunk=200):
-    chunks = [cases[i:i + chunk] for i in range(0, len(cases), chunk)]
+def run_cases(harness, cases, proj_opts, kinds, chunk=200, chunk_lines=6000):
+    # chunks of comparable weight: at most `chunk` cases and about `chunk_lines` script lines (long random histories
+    # would otherwise pile up in the last chunks)
+    chunks = []; cur = []; w = 0
+    for c in cases:
+        cur.append(c); w += len(c.lines)
+        if len(cur) >= chunk or w >= chunk_lines:
+            chunks.append(cur); cur = []; w = 0
+    if cur: chunks.append(cur)
     findings = []; stats = {"steps": 0, "exact": 0, "invariant_only": 0, "panics": 0, "cases": 0, "validated": 0}
     with cf.ThreadPoolExecutor(max_workers=NJOBS) as ex:
         for ch, res in zip(chunks, ex.map(lambda ch: run_chunk(harness, ch), chunks)):
